@@ -15,6 +15,7 @@ import (
 
 	"github.com/internetarchive/Zeno/internal/pkg/stats"
 	"github.com/internetarchive/Zeno/internal/pkg/verifhook"
+	"github.com/internetarchive/Zeno/verifsim/sim/simsync"
 )
 
 func moreOracles(r *e2e, t *tracker) []Oracle {
@@ -182,8 +183,16 @@ func RunComp(t *testing.T, in *RunInput) {
 				k.MaxSimTime = 6 * time.Hour
 				cs = &compState{k: k, tape: tape, prop: in.Property, extra: sc.Extra, done: make(chan struct{}), blocked: map[string]string{}, sample: map[string]any{}}
 				verifhook.Handler = k.Handle
+				rootGoid := goruntime.SimGoid()
+				simsync.YieldFn = func() {
+					// the root goroutine drives the kernel: it must never park itself
+					if goruntime.SimGoid() != rootGoid {
+						k.Handle("sim.yield", true, nil)
+					}
+				}
 				k.SetActor("root")
 				fn(cs)
+				simsync.YieldFn = nil
 				simNs = int64(k.Now())
 				verifhook.Handler = nil
 			})
